@@ -1,6 +1,7 @@
 package rules
 
 import (
+	"go/constant"
 	"fmt"
 	"go/token"
 	"go/types"
@@ -43,7 +44,239 @@ func mapProtocol(r *Run, prop string, idx int) *core.Report {
 	p8Root(r, rep, prop, mm)
 	p10RMW(r, rep, prop, mm)
 	p11Absence(r, rep, prop+".P11", mm)
+	p3Helpers(r, rep, prop+".P3", mm)
+	p12WordWidth(r, rep, prop+".P12")
+	if idx == 1 {
+		// P13 (generic keys): keys that compare equal hash equal under every seed (restated from C10)
+		n13 := borrow(rep, C10(r), prop+".P13", "C10.H")
+		rep.MinCount(prop+".P13", "premise obligations (hash agrees with ==)", n13, 4)
+	}
 	return rep
+}
+
+// p3Helpers: the two tests of the post-lock validation mean what the protocol needs.
+// (a) The resize flag: the winning CAS installs one non-zero constant K over 0, the owner's store puts 0 back, and
+// every comparison a reader makes with the loaded flag tells K from 0 (a test that is false for the value the
+// owner installs does not see the running resize). (b) The table re-check compares the *identity* of the table the
+// attempt used with the current table pointer - any other relation between the two (equal lengths, equal seeds)
+// lets a writer validate against a table that was replaced and replaced again (ABA), and its update is lost.
+func p3Helpers(r *Run, rep *core.Report, rule string, mm *core.MapModel) {
+	// (a) flag values
+	var ks []constant.Value
+	okCAS := true
+	why := ""
+	nTests := 0
+	for _, f := range r.P.Funcs {
+		if f.Pkg != r.P.Xsync {
+			continue
+		}
+		core.Instrs(f, func(in ssa.Instruction) {
+			c, ok := in.(ssa.CallInstruction)
+			if !ok {
+				return
+			}
+			op, addr, isAt := core.AtomicOp(c)
+			if !isAt || !mm.IsFlag(core.Addr(addr)) {
+				return
+			}
+			args := c.Common().Args
+			switch op {
+			case "CAS":
+				if len(args) < 2 {
+					return
+				}
+				oldV, newV := args[len(args)-2], args[len(args)-1]
+				ko, isKo := core.StripConv(oldV).(*ssa.Const)
+				kn, isKn := core.StripConv(newV).(*ssa.Const)
+				if !isKo || !isKn || ko.Value == nil || kn.Value == nil {
+					okCAS, why = false, "the CAS on the resize flag at "+r.P.InstrPos(in)+" does not install a constant: the value readers must recognise as 'resize in progress' depends on run-time data"
+					return
+				}
+				if constant.Sign(ko.Value) != 0 || constant.Sign(kn.Value) == 0 {
+					okCAS, why = false, "the CAS on the resize flag at "+r.P.InstrPos(in)+" is not 0 -> non-zero"
+					return
+				}
+				ks = append(ks, kn.Value)
+			case "Store":
+				k, isK := core.StripConv(args[len(args)-1]).(*ssa.Const)
+				if !isK || k.Value == nil || constant.Sign(k.Value) != 0 {
+					okCAS, why = false, "the resize flag is stored with something other than 0 at "+r.P.InstrPos(in)
+				}
+			}
+		})
+	}
+	for i := 1; i < len(ks); i++ {
+		if !constant.Compare(ks[0], token.EQL, ks[i]) {
+			okCAS, why = false, "the resize flag is raised with different constants"
+		}
+	}
+	pos := "-"
+	if mm.Resize != nil {
+		pos = r.P.Pos(mm.Resize.Pos())
+	}
+	if len(ks) == 0 && okCAS {
+		rep.Undecided(rule, mm.Name+" resize flag values", pos, "no CAS on the resize flag found")
+	} else {
+		rep.Check(okCAS, rule, mm.Name+" resize flag values", pos, "the flag goes 0 -> one non-zero constant (CAS) -> 0 (store)", why)
+	}
+	if okCAS && len(ks) > 0 {
+		K := ks[0]
+		for _, f := range r.P.Funcs {
+			if f.Pkg != r.P.Xsync {
+				continue
+			}
+			core.Instrs(f, func(in ssa.Instruction) {
+				b, ok := in.(*ssa.BinOp)
+				if !ok {
+					return
+				}
+				for _, pair := range [][2]ssa.Value{{b.X, b.Y}, {b.Y, b.X}} {
+					a, isLoad := atomicLoadPath(pair[0])
+					k, isK := core.StripConv(pair[1]).(*ssa.Const)
+					if !isLoad || !mm.IsFlag(a) || !isK || k.Value == nil {
+						continue
+					}
+					op := b.Op
+					x, y := K, k.Value
+					z := constant.MakeInt64(0)
+					if pair[0] != b.X {
+						// constant on the left: mirror the comparison
+						switch op {
+						case token.LSS:
+							op = token.GTR
+						case token.GTR:
+							op = token.LSS
+						case token.LEQ:
+							op = token.GEQ
+						case token.GEQ:
+							op = token.LEQ
+						}
+					}
+					switch op {
+					case token.EQL, token.NEQ, token.LSS, token.GTR, token.LEQ, token.GEQ:
+					default:
+						return
+					}
+					nTests++
+					atK := constant.Compare(x, op, y)
+					at0 := constant.Compare(z, op, y)
+					rep.Check(atK != at0, rule, fn(f)+" flag test tells idle from resizing", r.P.InstrPos(in),
+						fmt.Sprintf("the comparison is %v for the owner's value %s and %v for 0", atK, K.ExactString(), at0),
+						fmt.Sprintf("the comparison of the resize flag with %s gives the same answer (%v) for the value the resize owner installs (%s) and for 0: a running resize is not recognised, writers go on modifying buckets that were already copied", k.Value.ExactString(), atK, K.ExactString()))
+					return
+				}
+			})
+		}
+		rep.MinCount(rule, mm.Name+" resize flag tests", nTests, 1)
+	}
+	// (b) table identity
+	if g := mm.NewerTbl; g != nil {
+		okID := true
+		whyID := ""
+		nRet := 0
+		core.Instrs(g, func(in ssa.Instruction) {
+			ret, ok := in.(*ssa.Return)
+			if !ok || len(ret.Results) != 1 {
+				return
+			}
+			nRet++
+			v := ret.Results[0]
+			for {
+				if u, isU := v.(*ssa.UnOp); isU && u.Op == token.NOT {
+					v = u.X
+					continue
+				}
+				break
+			}
+			b, isB := v.(*ssa.BinOp)
+			if !isB || (b.Op != token.EQL && b.Op != token.NEQ) {
+				okID, whyID = false, "the helper's result is not an (in)equality of two table pointers"
+				return
+			}
+			sawLoad, sawParam := false, false
+			for _, side := range []ssa.Value{b.X, b.Y} {
+				if a, isLoad := atomicLoadPath(side); isLoad && a.Owner == mm.Name && a.Field == mm.TableF {
+					sawLoad = true
+					continue
+				}
+				if prm, isP := core.StripConv(side).(*ssa.Parameter); isP && core.NamedOf(prm.Type()) == mm.TableT {
+					sawParam = true
+				}
+			}
+			if !sawLoad || !sawParam {
+				okID, whyID = false, "the helper does not compare the current table pointer itself with the table it was given (it compares something derived from them: lengths, seeds, ...): two different tables can pass for the same one (ABA after grow+shrink or Clear)"
+			}
+		})
+		if nRet == 0 {
+			rep.Undecided(rule, fn(g)+" compares table identity", r.P.Pos(g.Pos()), "no return found")
+		} else {
+			rep.Check(okID, rule, fn(g)+" compares table identity", r.P.Pos(g.Pos()), "the re-check is pointer identity of the attempt's table with the current table", whyID)
+		}
+	}
+}
+
+// p12WordWidth: the packed 64-bit bucket words (meta bytes, top hashes, lock bit) are computed in 64 bits. A left
+// shift carried out in a platform-sized integer type (int, uint, uintptr) whose result is then widened to a 64-bit
+// type loses the upper half on 32-bit platforms: the fifth and later byte lanes of a word are then never set or
+// cleared there.
+func p12WordWidth(r *Run, rep *core.Report, rule string) {
+	n := 0
+	for _, f := range r.P.Funcs {
+		if f.Pkg != r.P.Xsync {
+			continue
+		}
+		core.Instrs(f, func(in ssa.Instruction) {
+			cv, ok := in.(*ssa.Convert)
+			if !ok {
+				return
+			}
+			dst, isB := cv.Type().Underlying().(*types.Basic)
+			if !isB || (dst.Kind() != types.Uint64 && dst.Kind() != types.Int64) {
+				return
+			}
+			src, isB2 := cv.X.Type().Underlying().(*types.Basic)
+			if !isB2 || (src.Kind() != types.Int && src.Kind() != types.Uint && src.Kind() != types.Uintptr) {
+				return
+			}
+			// does the converted value come from a left shift by a non-constant or large amount?
+			var shl *ssa.BinOp
+			var walk func(v ssa.Value, d int)
+			walk = func(v ssa.Value, d int) {
+				if d > 6 || shl != nil {
+					return
+				}
+				switch x := v.(type) {
+				case *ssa.BinOp:
+					if x.Op == token.SHL {
+						if k, isK := core.ConstInt(x.Y); !isK || k >= 8 {
+							if _, isConstVal := x.X.(*ssa.Const); isConstVal || true {
+								shl = x
+							}
+						}
+						return
+					}
+					switch x.Op {
+					case token.AND, token.OR, token.XOR, token.AND_NOT, token.ADD, token.SUB:
+						walk(x.X, d+1)
+						walk(x.Y, d+1)
+					}
+				case *ssa.UnOp:
+					if x.Op == token.XOR {
+						walk(x.X, d+1)
+					}
+				case *ssa.Phi:
+					for _, e := range x.Edges {
+						walk(e, d+1)
+					}
+				}
+			}
+			walk(cv.X, 0)
+			n++
+			rep.Check(shl == nil, rule, fn(f)+" 64-bit word arithmetic", r.P.InstrPos(in), "no platform-sized left shift is widened to 64 bits",
+				"a left shift is evaluated in a platform-sized integer type ("+src.Name()+") and only then widened to "+dst.Name()+": on 32-bit platforms the bits for byte lanes 4-7 of the packed word are lost")
+		})
+	}
+	_ = n
 }
 
 // p11Absence: the lock-free lookup reports a key absent only after it has followed the chain to its end. A
